@@ -80,6 +80,19 @@ Rows(batch) ==
 
 RankOk == Kind # "wh" \/ FullRank(XX, PP)
 
+\* the apply event of the training batch (reference for relations between batches)
+HasTrain == \E q \in 1..Len(Case.ev) : Case.ev[q].ev = "apply" /\ Case.ev[q].batch = "train"
+TrainIdx == CHOOSE q \in 1..Len(Case.ev) : Case.ev[q].ev = "apply" /\ Case.ev[q].batch = "train"
+TrainOut == Case.ev[TrainIdx].out
+
+\* Large column offsets (In.oe[b] > 0: the harness adds 2^oe[b] to every entry of column b of X and Z and subtracts
+\* it from the logged location parameters; the relations work on the un-shifted integers).  TF = number of fraction
+\* bits of the float type; the fitted mean may be off by 2^(oe - TF + 1) (one to two units in the last place of the
+\* offset: the sum of the exactly representable entries is exact, the division rounds once).
+HasOffset == \E b \in 1..PP : In.oe[b] > 0
+TF == IF In.ft = "f32" THEN 23 ELSE 52
+MeanSl(b) == IF In.oe[b] = 0 THEN 0 ELSE IF TF - 1 - In.oe[b] >= 30 THEN 1 ELSE S \div Pow2(TF - 1 - In.oe[b]) + 1
+
 -----------------------------------------------------------------------------
 (* fit *)
 FitLinOk ==
@@ -96,7 +109,7 @@ FitWhOk ==
   /\ Ev.nfo = <<>> /\ Ev.nfs = <<>>
   /\ Ev.wr = PP /\ Ev.wc = PP /\ Len(Ev.mean) = PP
   /\ LET st == St IN
-     \A b \in 1..PP : RatOk(Ev.mean[b], st[b].sum, NN, Sl)
+     \A b \in 1..PP : RatOk(Ev.mean[b], st[b].sum, NN, Sl + MeanSl(b))
 
 FitOk ==
   CASE Kind = "empty" -> ~Ev.ok                         \* empty training data is rejected with an error
@@ -119,25 +132,34 @@ FitEv == Case.ev[1]
 CellsOk(rows) ==
   CASE Kind = "lin"  -> LET st == St IN
                         /\ \A r \in 1..Len(rows) : \A j \in 1..PP :
-                             LinCellOk(In.meth, In.lo, In.hi, st[j], All[rows[r]][j], Ev.out[r][j], Sl, Dn(j))
+                             LinCellOk(In.meth, In.lo, In.hi, st[j], All[rows[r]][j], Ev.out[r][j], Sl, Dn(j), In.rd)
                         \* variants that leave the values in the unit of the data: the same outputs converted by the
                         \* harness to the unit of the integers (times 2^sh[j], exact), where the grid resolves them
                         /\ In.meth \in {"nostd", "none"} =>
                              /\ Ev.nfu = <<>> /\ Len(Ev.outu) = Len(rows)
                              /\ \A r \in 1..Len(rows) : \A j \in 1..PP :
-                                  LinCellOk(In.meth, In.lo, In.hi, st[j], All[rows[r]][j], Ev.outu[r][j], Sl, 1)
+                                  LinCellOk(In.meth, In.lo, In.hi, st[j], All[rows[r]][j], Ev.outu[r][j], Sl, 1, In.rd)
     [] Kind = "norm" -> \A r \in 1..Len(rows) : NormRowOk(In.meth, All[rows[r]], Ev.out[r], Sl)
     [] Kind = "wh"   -> LET st == St IN
                         /\ FitEv.ev = "fit" /\ FitEv.ok
                         /\ \A r \in 1..Len(rows) : \A a \in 1..PP :
-                             WhCellOk(st, All[rows[r]], FitEv.w[a], Ev.out[r][a], Sl, Wq)
+                             WhCellOkX(st, All[rows[r]], FitEv.w[a], Ev.out[r][a], Sl, Wq,
+                                       IF HasOffset THEN WhMeanExtra(NN, FitEv.w[a], In.oe, TF) ELSE 0)
+                        \* with large offsets every row may be moved by the same small vector (error of the fitted
+                        \* mean), but rows relative to each other -- here: to the first training row, in whatever
+                        \* batch they are transformed -- are exact
+                        /\ HasOffset =>
+                             /\ HasTrain /\ Len(TrainOut) = NN /\ \A r \in 1..NN : Len(TrainOut[r]) = PP
+                             /\ \A r \in 1..Len(rows) : \A a \in 1..PP :
+                                  WhDiffOk(NN, All[rows[r]], XX[1], FitEv.w[a], Ev.out[r][a], TrainOut[1][a], Sl, Wq)
 
 \* the normalisation reached on the training data, from the logged outputs
 PostOk ==
   CASE Kind = "lin"  -> LET st == St IN
-                        \A j \in 1..PP : LinPostOk(In.meth, In.lo, In.hi, st[j], Col(Ev.out, j), Sl, Dn(j))
+                        \A j \in 1..PP : LinPostOk(In.meth, In.lo, In.hi, st[j], Col(Ev.out, j), Sl, Dn(j), In.rd)
     [] Kind = "norm" -> TRUE                       \* unit norms are part of NormRowOk (every batch)
-    [] Kind = "wh"   -> WhCovOk(Ev.out, PP, SlW) \/ (SvdLoose /\ WhCovOk(Ev.out, PP, SlWLoose))
+    [] Kind = "wh"   -> \/ IF HasOffset THEN WhCovOkShift(Ev.out, PP, SlW) ELSE WhCovOk(Ev.out, PP, SlW)
+                        \/ (SvdLoose /\ WhCovOk(Ev.out, PP, SlWLoose))
 
 ApplyOk ==
   LET rows == Rows(Ev.batch) IN
@@ -209,9 +231,7 @@ Step ==
   /\ UNCHANGED <<c, vars>>
 
 \* the deviations that were needed to explain the case (the strict clause is false on the training batch)
-TrainIdx == CHOOSE q \in 1..Len(Case.ev) : Case.ev[q].ev = "apply" /\ Case.ev[q].batch = "train"
-TrainOut == Case.ev[TrainIdx].out
-UsedDevs == IF SvdLoose /\ ~WhCovOk(TrainOut, PP, SlW) THEN <<"whiten_svd_inaccurate">> ELSE <<>>
+UsedDevs == IF SvdLoose /\ ~(IF HasOffset THEN WhCovOkShift(TrainOut, PP, SlW) ELSE WhCovOk(TrainOut, PP, SlW)) THEN <<"whiten_svd_inaccurate">> ELSE <<>>
 
 Finish ==
   /\ e = Len(Case.ev) + 1
